@@ -16,12 +16,14 @@ REGIONS = [("tiny", Fr(1, 10 ** 6)), ("mid", Fr(1)), ("large", Fr(10))]
 
 
 def table_hook(it, body, args):
-    if body.get("name") in ("polevl", "p1evl") and body["path"].startswith("bessel::"):
-        x, coef = unref(args[0]), unref(args[1])
-        if isinstance(x, Sc) and isinstance(coef, Tup):
-            h = hashlib.sha1(repr([unref(c).v.show() for c in coef.vs]).encode()).hexdigest()[:8]
-            TABLES[h] = (body["name"], [unref(c).v.const_value() for c in coef.vs])
-            return Sc(apply_fn("%s#%s" % (body["name"], h), x.v))
+    hc = horner_call(it.F, body, args)
+    if hc is not None:
+        kind, x, coef = hc
+        if isinstance(x, Sc):
+            nm = "polevl" if kind == "poly" else "p1evl"
+            h = hashlib.sha1(repr([unref(c).v.show() for c in coef]).encode()).hexdigest()[:8]
+            TABLES[h] = (nm, [unref(c).v.const_value() for c in coef])
+            return Sc(apply_fn("%s#%s" % (nm, h), x.v))
     return NotImplemented
 
 
@@ -54,11 +56,16 @@ def run(tier):
     switch_points(chk, F, bodies)
     rational_arm_series(chk, F, bodies)
     asymptotic_arm(chk, F, bodies)
+    approximant_grid(chk, F, bodies)
     purity(chk, F)
     # (2b) the operations bessel.rs is built from (+ - * / between dual numbers, the chain rule behind sqrt / sin / cos / recip) are
     # the operations of the truncated algebra: rule sets of C02 / C01, reused — purity reduces C14's derivative parts to exactly these
     algebra.check_arith(chk, F, tag="ops")
     algebra.check_chain_rules(chk, F, tag="ops-chain")
+    # ... in every operand form, including the dual-with-float forms (`z / 4.0` on a nested type divides the INNER dual numbers in place)
+    from . import c08
+    for ty in TYPES:
+        c08.check_type(chk, F, ty, thorough=False)
     chk.floor("bessel bodies", chk.analysed.get("bessel bodies", 0), 3)
     return chk.finish()
 
@@ -267,13 +274,14 @@ def switch_points(chk, F, bodies):
 
 def horner_series_hook(it, body, args):
     """polevl / p1evl over a constant table, in the arithmetic of the current domain (used with the power-series domain)"""
-    if body.get("name") in ("polevl", "p1evl") and body["path"].startswith("bessel::"):
-        x, coef = unref(args[0]), unref(args[1])
-        if not (isinstance(x, Sc) and isinstance(coef, Tup)):
+    hc = horner_call(it.F, body, args)
+    if hc is not None:
+        kind, x, coef = hc
+        if not isinstance(x, Sc):
             return NotImplemented
-        cs = [unref(c).v for c in coef.vs]
+        cs = [unref(c).v for c in coef]
         d = it.dom
-        if body["name"] == "polevl":
+        if kind == "poly":
             acc, rest = cs[0], cs[1:]
         else:
             acc, rest = d.const(1), cs
@@ -315,6 +323,56 @@ def rational_arm_series(chk, F, bodies):
                body_loc(F, body), found="largest derivative error at 0: %.2e; coefficients %s" % (float(worst), [float(c) for c in got[:7]]),
                required="<= 1e-13; Maclaurin %s" % [float(c) for c in true[:7]])
         chk.count("rational arms expanded")
+
+
+GRID = [Fr(1, 2), Fr(1), Fr(3, 2), Fr(2), Fr(5, 2), Fr(3), Fr(7, 2), Fr(4), Fr(9, 2), Fr(4999, 1000),       # rational arm (|x| <= 5)
+        Fr(501, 100), Fr(6), Fr(73, 10), Fr(9), Fr(12), Fr(17), Fr(25), Fr(40)]                                    # asymptotic arm
+GRID_TOL = Fr(1, 10 ** 16)
+
+
+def approximant_grid(chk, F, bodies):
+    """the formula the analysis extracts for each arm (coefficient tables included, read from the facts) is evaluated at grid points on
+    both sides in 60-digit arithmetic and compared with J_n from its exact Maclaurin series: the tables ARE approximations of J_n"""
+    from ..domq import DomQ, bessel_ref, to_d
+    dom = DomQ()
+    for n in (0, 1, 2):
+        body = bodies.get("bessel_j%d" % n)
+        if body is None:
+            continue
+        worst, where, bad, n_pts = 0, None, [], 0
+        for x in GRID:
+            for sgn in (1, -1):
+                xv = to_d(x * sgn)
+
+                def thunk(ctx):
+                    it = Interp(F, dom, ctx=ctx, hooks=[horner_series_hook])
+                    it.scalar_mode = True
+                    return it.call_body(body, [Sc(xv)])
+                try:
+                    paths = explore(thunk, dom.oracle)
+                except (Unsupported, ValueError, ZeroDivisionError, ArithmeticError) as ex:
+                    chk.undecide("bessel|j%d|grid" % n, "unsupported: %s" % ex, body_loc(F, body))
+                    paths = None
+                    break
+                if len(paths) != 1 or not isinstance(unref(paths[0][1]), Sc):
+                    chk.undecide("bessel|j%d|grid" % n, "unsupported: evaluation at a point does not follow a single path", body_loc(F, body))
+                    paths = None
+                    break
+                got = unref(paths[0][1]).v
+                ref = bessel_ref(n, x) * (1 if (sgn > 0 or n % 2 == 0) else -1)
+                err = abs(got - ref)
+                n_pts += 1
+                if err > worst:
+                    worst, where = err, float(x * sgn)
+                if err > to_d(GRID_TOL):
+                    bad.append("J%d(%s): formula gives %.17g, J%d is %.17g (difference %.2e)" % (n, float(x * sgn), float(got), n, float(ref), float(err)))
+            if paths is None:
+                break
+        else:
+            chk.ob("bessel|j%d|grid" % n, not bad, "the extracted approximant (rational arm for |x| <= 5, asymptotic arm beyond; tables from the "
+                   "source) agrees with J%d at %d grid points on both arms and both signs to 1e-16" % (n, n_pts), body_loc(F, body),
+                   found=bad[:3] or "largest difference %.2e at x = %s" % (float(worst), where), required="<= 1e-16 (absolute; the pinned tables reach 6e-18)")
+            chk.count("approximant grid points", n_pts)
 
 
 def asymptotic_arm(chk, F, bodies):
